@@ -1000,10 +1000,27 @@ func findDefinednessCheck(p *load.Prog, pkg *packages.Package) *definednessCheck
 		if len(fts) == 0 || len(sets) == 0 {
 			continue
 		}
+		// it reports what it finds: an error result
+		sig := fn.Type().(*types.Signature)
+		if sig.Results().Len() == 0 || !isErrorType(sig.Results().At(sig.Results().Len()-1).Type()) {
+			continue
+		}
+		// stores into the set are not lookups
+		stores := map[*ast.IndexExpr]bool{}
+		ast.Inspect(fd.Body, func(n ast.Node) bool {
+			if as, ok := n.(*ast.AssignStmt); ok {
+				for _, l := range as.Lhs {
+					if ix, ok := l.(*ast.IndexExpr); ok {
+						stores[ix] = true
+					}
+				}
+			}
+			return true
+		})
 		var hit *definednessCheck
 		ast.Inspect(fd.Body, func(n ast.Node) bool {
 			ix, ok := n.(*ast.IndexExpr)
-			if !ok || hit != nil {
+			if !ok || hit != nil || stores[ix] {
 				return true
 			}
 			id, ok := ast.Unparen(ix.X).(*ast.Ident)
